@@ -569,7 +569,11 @@ impl Gen<'_> {
                 }
                 None => hyb(Hyb::Bind, v, None, un(Un::AX, un(Un::AX, var(v)))),
             },
-            8 => hyb(Hyb::Bind, v, None, un(Un::AG, un(Un::AF, var(v)))),
+            8 => match self.rng.below(3) {
+                0 => hyb(Hyb::Bind, v, None, un(Un::AG, un(Un::AF, var(v)))),
+                1 => hyb(Hyb::Bind, v, None, un(Un::AG, var(v))),
+                _ => hyb(Hyb::Bind, v, None, un(Un::EF, var(v))),
+            },
             _ => hyb(Hyb::Bind, v, None, un(Un::EX, var(v))),
         }
     }
